@@ -3,7 +3,9 @@ package main
 import (
 	"context"
 	"crypto"
+	"crypto/ecdsa"
 	"crypto/ed25519"
+	"crypto/elliptic"
 	"crypto/rand"
 	"crypto/tls"
 	stdx509 "crypto/x509"
@@ -37,33 +39,72 @@ func quicIDName(id p2p.PeerID) string {
 			return n
 		}
 	}
+	ecKey()
+	if quicswarm.DefaultFingerprinter(mePub) == id {
+		return "Me"
+	}
 	if quicswarm.DefaultFingerprinter(x509.PublicKey{}) == id {
 		return "zero"
 	}
 	return "other"
 }
 
-// claimSigner is the TLS private key of a certificate that carries an arbitrary public key: it signs
-// CertificateVerify with M's key ("own") or with nothing at all.
+// M's second key pair: ECDSA P-256, an algorithm the swarms' default registry (Ed25519 only) cannot load.
+var (
+	meOnce sync.Once
+	meKey  *ecdsa.PrivateKey
+	mePub  x509.PublicKey // as the library parses it out of a certificate
+)
+
+func ecKey() *ecdsa.PrivateKey {
+	meOnce.Do(func() {
+		k, err := ecdsa.GenerateKey(elliptic.P256(), rand.Reader)
+		if err != nil {
+			panic(err)
+		}
+		meKey = k
+		spki, err := stdx509.MarshalPKIXPublicKey(&k.PublicKey)
+		if err != nil {
+			panic(err)
+		}
+		mePub, err = x509.ParsePublicKey(spki)
+		if err != nil {
+			panic(err)
+		}
+	})
+	return meKey
+}
+
+func stdPub(k string) crypto.PublicKey {
+	if k == "Me" {
+		return &ecKey().PublicKey
+	}
+	return edKey(k).Public()
+}
+
+// claimSigner is the TLS private key of a leaf certificate that carries an arbitrary public key: it signs
+// CertificateVerify with the matching private key if M has it, otherwise with M's main key ("own"), or
+// with nothing at all.
 type claimSigner struct {
-	pub ed25519.PublicKey
+	k   string
 	own bool
 }
 
-func (s *claimSigner) Public() crypto.PublicKey { return s.pub }
+func (s *claimSigner) Public() crypto.PublicKey { return stdPub(s.k) }
 func (s *claimSigner) Sign(r io.Reader, digest []byte, opts crypto.SignerOpts) ([]byte, error) {
-	if s.own {
+	switch {
+	case s.own && s.k == "Me":
+		return ecKey().Sign(r, digest, opts)
+	case s.own:
 		return edKey("M").Sign(r, digest, opts)
 	}
 	return garbage(ed25519.SignatureSize, len(digest)), nil
 }
 
-// claimCert builds a certificate whose subject public key is k's; the certificate itself is signed by M
-// (like every swarm certificate it is self-issued and nobody verifies the issuer signature).
-func claimCert(k string, proof string) (tls.Certificate, error) {
+func certTemplate() *stdx509.Certificate {
 	max := new(big.Int).Lsh(big.NewInt(1), 120)
 	serial, _ := rand.Int(rand.Reader, max)
-	template := stdx509.Certificate{
+	return &stdx509.Certificate{
 		ExtKeyUsage:           []stdx509.ExtKeyUsage{stdx509.ExtKeyUsageClientAuth, stdx509.ExtKeyUsageServerAuth},
 		BasicConstraintsValid: true,
 		NotBefore:             time.Now().Add(-time.Minute),
@@ -72,12 +113,38 @@ func claimCert(k string, proof string) (tls.Certificate, error) {
 		SerialNumber:          serial,
 		IsCA:                  true,
 	}
-	pub := edKey(k).Public().(ed25519.PublicKey)
-	der, err := stdx509.CreateCertificate(rand.Reader, &template, &template, pub, edKey("M"))
+}
+
+// claimCert builds M's certificate chain: a leaf whose subject public key is k's, optionally followed by one
+// more certificate that merely CONTAINS the public key of extra (anybody can make such a certificate: public
+// keys are public). Every certificate is issued with M's main key; nobody verifies issuer signatures
+// (InsecureSkipVerify, RequireAnyClientCert), TLS only makes the peer prove the LEAF's private key.
+func claimCert(k, proof, extra string) (tls.Certificate, error) {
+	leafT := certTemplate()
+	der, err := stdx509.CreateCertificate(rand.Reader, leafT, leafT, stdPub(k), edKey("M"))
 	if err != nil {
 		return tls.Certificate{}, err
 	}
-	return tls.Certificate{Certificate: [][]byte{der}, PrivateKey: &claimSigner{pub: pub, own: proof == "own"}}, nil
+	chain := [][]byte{der}
+	if extra != "" && extra != "-" {
+		xder, err := stdx509.CreateCertificate(rand.Reader, certTemplate(), leafT, stdPub(extra), edKey("M"))
+		if err != nil {
+			return tls.Certificate{}, err
+		}
+		chain = append(chain, xder)
+	}
+	return tls.Certificate{Certificate: chain, PrivateKey: &claimSigner{k: k, own: proof == "own"}}, nil
+}
+
+// usedKey is the ground truth about a presentation: the key whose private half M really used.
+func usedKey(k, proof string) string {
+	switch {
+	case proof != "own":
+		return "none"
+	case k == "Me":
+		return "Me"
+	}
+	return "M"
 }
 
 type mtuConn struct{ net.PacketConn }
@@ -114,7 +181,7 @@ type quicWorld struct {
 	ln *quic.Listener
 
 	mu      sync.Mutex
-	pol     [2]string
+	pol     [3]string
 	dials   map[int]*mQConn
 	answers map[string]*mQConn // latest connection each peer opened to M
 	ansConn map[int]*mQConn    // model connection -> connection
@@ -122,7 +189,7 @@ type quicWorld struct {
 
 func newQUICWorld(r *run) (world, error) {
 	w := &quicWorld{r: r, inner: map[string]p2p.Swarm[memswarm.Addr]{}, addr: map[string]memswarm.Addr{}, owner: map[string]string{},
-		swarms: map[string]*quicswarm.Swarm[memswarm.Addr]{}, pol: [2]string{"M", "own"}, dials: map[int]*mQConn{}, answers: map[string]*mQConn{}, ansConn: map[int]*mQConn{}}
+		swarms: map[string]*quicswarm.Swarm[memswarm.Addr]{}, pol: [3]string{"M", "own", "-"}, dials: map[int]*mQConn{}, answers: map[string]*mQConn{}, ansConn: map[int]*mQConn{}}
 	w.ctx, w.cf = context.WithCancel(context.Background())
 	realm := sharedRealm
 	for _, n := range nodeNames {
@@ -174,7 +241,7 @@ func newQUICWorld(r *run) (world, error) {
 			w.mu.Lock()
 			pol := w.pol
 			w.mu.Unlock()
-			c, err := claimCert(pol[0], pol[1])
+			c, err := claimCert(pol[0], pol[1], pol[2])
 			return &c, err
 		},
 		NextProtos:         []string{"p2p"},
@@ -198,10 +265,7 @@ func newQUICWorld(r *run) (world, error) {
 				peer = w.owner[ra.Addr.Key()]
 			}
 			w.mu.Lock()
-			used := "none"
-			if w.pol[1] == "own" {
-				used = "M"
-			}
+			used := usedKey(w.pol[0], w.pol[1])
 			w.answers[peer] = &mQConn{peer: peer, conn: conn, used: used}
 			w.mu.Unlock()
 			go w.mRead(conn)
@@ -297,9 +361,9 @@ func (w *quicWorld) Reply(n string, addr any, ask bool, payload []byte, timeout 
 	return w.send(n, addr.(qAddr), ask, payload, timeout)
 }
 
-func (w *quicWorld) MListen(k, proof string) {
+func (w *quicWorld) MListen(k, proof, extra string) {
 	w.mu.Lock()
-	w.pol = [2]string{k, proof}
+	w.pol = [3]string{k, proof, extra}
 	w.mu.Unlock()
 }
 
@@ -326,21 +390,21 @@ func (w *quicWorld) MDial(c int, t string) string {
 }
 
 // MPresent is one QUIC connection attempt of M with a client certificate that carries key k.
-func (w *quicWorld) MPresent(c int, k, proof string) string {
+func (w *quicWorld) MPresent(c int, k, proof, extra string) string {
 	w.mu.Lock()
 	d := w.dials[c]
 	w.mu.Unlock()
 	if d == nil {
 		return "no such connection"
 	}
-	cert, err := claimCert(k, proof)
+	cert, err := claimCert(k, proof, extra)
 	if err != nil {
 		return "certificate: " + err.Error()
 	}
 	cliTLS := &tls.Config{Certificates: []tls.Certificate{cert}, InsecureSkipVerify: true, NextProtos: []string{"p2p"}}
 	// an honest-equivalent attempt is given more time (a busy machine is slow; a refusal fails by itself)
 	patience := 600 * time.Millisecond
-	if k == "M" && proof == "own" {
+	if (k == "M" || k == "Me") && proof == "own" {
 		patience = 2 * time.Second
 	}
 	ctx, cf := context.WithTimeout(w.ctx, patience)
@@ -354,10 +418,7 @@ func (w *quicWorld) MPresent(c int, k, proof string) string {
 		d.conn.CloseWithError(0, "")
 	}
 	d.conn = conn
-	d.used = "none"
-	if proof == "own" {
-		d.used = "M"
-	}
+	d.used = usedKey(k, proof)
 	w.mu.Unlock()
 	go w.mRead(conn)
 	// the server checks the client's CertificateVerify after the client believes the handshake is over
